@@ -25,6 +25,7 @@ RULE = ("operation sequences (length <= 8 quick / 12 thorough) of {set inputs, p
         "(original and all copies) is observed after each of its process steps and once more at the end. non-trivial: the "
         "sequence contains a copy or a restart followed by a process that yields a finite value; distinct = distinct "
         "(engine, sequence)")
+RULE += (" Every restart of a sequence is run by the driver as Op.Session.restartR (command restart-r of session-r): all rules load -> returns; a rule naming an unknown term -> raises with the inputs NaN and the outputs kept.")
 ASSUMPTIONS = ["values compared within 1e-7 with the fragile-point filter of C01 for the model; implementation-vs-fresh-"
                "implementation comparisons within 1e-12",
                "aliasing can only be observed, not modelled: the model's copies are independent by construction"]
@@ -181,6 +182,15 @@ def proc(e):
         return ["error", type(ex).__name__]
 
 
+def restart_obs(e):
+    """`restart()` of an engine whose rules all load: observed as the model observes it (`restart-r` of the driver)"""
+    try:
+        e.restart()
+        return ["restart", "ok"]
+    except Exception as ex:  # noqa: BLE001
+        return ["restart", "raises" if isinstance(ex, RuntimeError) else type(ex).__name__]
+
+
 def run_impl(desc, ops):
     """returns per engine object: (model command stream, observations of its process steps)"""
     engines = [{"e": G.build(desc), "d": pycopy.deepcopy(desc), "stream": [], "obs": [], "inputs": None,
@@ -206,8 +216,8 @@ def run_impl(desc, ops):
             E["obs"].append(got)
             E["stream"].append(["process"])
         elif op[0] == "restart":
-            E["e"].restart()
-            E["stream"].append(["restart"])
+            E["obs"].append(restart_obs(E["e"]))
+            E["stream"].append(["restart-r"])     # the model with the reload step (Op.Session.restartR): every rule loads
             E["inputs"] = None
             E["clean"] = True
         elif op[0] == "copy":
@@ -224,15 +234,16 @@ def run_impl(desc, ops):
             ov = next(o for o in d["outputs"] if o["name"] == rd["concls"][0]["var"])
             rd["concls"][0]["term"] = ov["terms"][op[2] % len(ov["terms"])]["name"]
             E["e"].rule_blocks[bi].rules[ri].text = G.rule_text(rd)
-            E["e"].restart()
+            E["obs"].append(restart_obs(E["e"]))
             E["stream"].append(["reconfig", G.engine_sx(d)])
-            E["stream"].append(["restart"])
+            E["stream"].append(["restart-r"])
             E["inputs"] = None
             E["clean"] = True
         elif op[0] == "badrule":
             # a rule whose text no longer loads (unknown term), then restart: `reload_rules` raises RuntimeError after
             # the input values were reset and before any output variable is cleared (model `Op.Session.restartR`,
-            # theorem `C13.code_restart`); the model stream continues with inputs NaN and the output states kept.
+            # theorem `C13.code_restart`: the driver runs it on the engine whose rule names the unknown term - command
+            # `restart-r` - and continues from the state it gives: inputs NaN, the output states kept).
             # The rule is then restored and loaded again - no restart, so what the outputs kept shows in later steps.
             d = E["d"]
             cands = [(bi, ri) for bi, b in enumerate(d["blocks"]) for ri, _ in enumerate(b["rules"])]
@@ -242,11 +253,16 @@ def run_impl(desc, ops):
             before = [(np.array(ov.value, dtype=float).tolist(), float(ov.previous_value)) for ov in E["e"].output_variables]
             c0 = d["blocks"][bi]["rules"][ri]["concls"][0]
             rule.consequent.text = " ".join([c0["var"], "is"] + c0["hedges"] + ["no_such_term"])
+            d_bad = pycopy.deepcopy(d)
+            d_bad["blocks"][bi]["rules"][ri]["concls"][0]["term"] = "no_such_term"
+            E["stream"].append(["reconfig", G.engine_sx(d_bad)])
             raised = None
             try:
                 E["e"].restart()
             except Exception as ex:  # noqa: BLE001
                 raised = type(ex).__name__
+            E["obs"].append(["restart", "raises" if raised == "RuntimeError" else raised or "ok"])
+            E["stream"].append(["restart-r"])
             after = [(np.array(ov.value, dtype=float).tolist(), float(ov.previous_value)) for ov in E["e"].output_variables]
             ins = [float(np.take(iv.value, -1)) for iv in E["e"].input_variables]
             fails = E.setdefault("restart_fail", [])
@@ -261,7 +277,7 @@ def run_impl(desc, ops):
             rule.consequent.text = good
             rule.load(E["e"])
             n_in = len(E["e"].input_variables)
-            E["stream"].append(["set"] + [math.nan] * n_in)
+            E["stream"].append(["reconfig", G.engine_sx(d)])
             E["inputs"] = [math.nan] * n_in
         elif op[0] == "edit":
             if apply_edit(E["e"], E["d"], op):
@@ -410,7 +426,7 @@ def correspond(ctx):
     lines, owner = [], []
     for ci, engines in enumerate(runs):
         for k, E in enumerate(engines):
-            lines.append(C.sx(["session", G.engine_sx(cases[ci]["engine"]), E["stream"]]))
+            lines.append(C.sx(["session-r", G.engine_sx(cases[ci]["engine"]), E["stream"]]))
             owner.append((ci, k))
     outs = ctx.driver.eval(lines)
     bad_cases = set()
@@ -425,7 +441,14 @@ def correspond(ctx):
         m = C.parse_sx(line)
         m = [] if m == "()" else m
         bad = None
+        if len(m) != len(E["obs"]):
+            bad = f"engine object {k}: {len(E['obs'])} observations, model {len(m)}"
         for si, (o, mo) in enumerate(zip(E["obs"], m)):
+            if o and o[0] == "restart" or (isinstance(mo, list) and mo and mo[0] == "restart"):
+                if list(o) != list(mo):
+                    bad = f"engine object {k} step #{si}: restart() {o}, model (Op.Session.restartR) {mo}"
+                    break
+                continue
             if o and o[0] == "error" or mo == "error":
                 if not (o and o[0] == "error" and mo == "error"):
                     bad = f"engine object {k} process #{si}: implementation {o}, model {mo}"
